@@ -1,11 +1,24 @@
-(* C02 — theorems are added as they close; see Index/Index.v (model) and Index/Index_Spec.v (spec) *)
-From SA Require Import Base.Prelude Index.Index Index.Index_Spec.
+(* C02 — document frequency, document lengths and corpus statistics match the corpus.  Statement-only file. *)
+From SA Require Import Base.Prelude Index.Index Index.Index_Spec Index.Index_Proofs3.
 Open Scope N_scope.
-Example C02_model_spec_example :
-  match index false 2 [[1;2;1;3];[];[2];[1;1;2];[]] with
-  | AOk ix => termfreqs ix 1 = AOk (tf_spec [[1;2;1;3];[];[2];[1;1;2];[]] 1) /\
-              docfreq ix 2 = AOk (df_spec [[1;2;1;3];[];[2];[1;1;2];[]] 2) /\
-              doclengths ix = lens_spec [[1;2;1;3];[];[2];[1;1;2];[]] /\
-              positions ix 2 = AOk (positions_spec [[1;2;1;3];[];[2];[1;1;2];[]] 2)
+
+Theorem C02_docfreq_is_count : forall docs bs, wf_docs docs ->
+  exists ix, index false bs docs = AOk ix /\ forall t, docfreq ix t = AOk (df_spec docs t).
+Proof. exact C02_docfreq_any. Qed.
+Print Assumptions C02_docfreq_is_count.
+
+(* lengths (0 for empty documents), number of rows, and the total the average is computed from;
+   holds for every batch size, i.e. wherever empty documents fall relative to batch boundaries *)
+Theorem C02_lengths_and_statistics : forall docs bs, wf_docs docs ->
+  exists ix, index false bs docs = AOk ix /\
+    doclengths ix = lens_spec docs /\ corpus_size ix = N.of_nat (length docs) /\ total_len ix = total_spec docs.
+Proof. exact C02_doclens_any. Qed.
+Print Assumptions C02_lengths_and_statistics.
+
+(* NOT proved in Coq: avg_doc_length = float32 rounding of total/n as numpy's mean computes it (validated by the
+   correspondence check against the correctly rounded quotient; see DESIGN.md C02). *)
+Example C02_nonvacuous :
+  match index false 1 [[];[1;2;1];[];[];[2]] with
+  | AOk ix => doclengths ix = [0;3;0;0;1] /\ docfreq ix 1 = AOk 1 /\ docfreq ix 7 = AOk 0
   | _ => False end.
 Proof. vm_compute. repeat split. Qed.
